@@ -443,6 +443,24 @@ def describe_vjson(ev, obs, entry):
 
 
 KINDS["vjson"] = dict(module="Trace_ValueJson", shrink=None, describe=describe_vjson)
+vlib.TRACE_PREP["Trace_ValueSchema"] = trace_tables
+vlib.TRACE_CFG["Trace_ValueSchema"] = TEXT_CFG
+
+
+def describe_vjsonschema(ev, obs, entry):
+    d = ev.get("datum") or {}
+    o = obs if isinstance(obs, dict) else {}
+    backs = []
+    for sp in o.get("spell") or []:
+        for b in sp.get("backs") or []:
+            if not b.get("ok"):
+                backs.append("%s: error `%s`" % (sp.get("name"), b.get("err")))
+    return "value-json-schema entity %s attrs %s tags %s => %s%s" % (
+        pretty.sv(d.get("uid") or {}), {k: pretty.sv(v) for k, v in (d.get("attrs") or {}).items()} if isinstance(d.get("attrs"), dict) else {},
+        [(cps(t[0]), pretty.sv(t[1])) for t in d.get("tags") or []], "; ".join(entry.get("why") or ["?"]), (" [" + "; ".join(backs)[:400] + "]") if backs else "")
+
+
+KINDS["vjsonschema"] = dict(module="Trace_ValueSchema", shrink=None, describe=describe_vjsonschema)
 
 
 @prop("C13")
@@ -458,12 +476,18 @@ def run_C13(ctx):
                 "specification's reading of the RECORDED encoding = the datum; the real decoder's result = the datum; the decoder's "
                 "re-encoding repeats the bytes; alternative spellings (entity references flipped explicit <-> implicit in uid / parents / "
                 "request positions; bare string, {fn,arg} and __extn for typed extension decoders; both EntityUID spellings) are the same "
-                "datum per the specification and per the real decoder. distinct = distinct data.")
-    ctx.assumptions = ["schema-guided coercion (UnmarshalJSONWithSchema) is exercised under C15/C16's schemas, not here",
+                "datum per the specification and per the real decoder. Schema-guided decoding (Trace_ValueSchema): entities of every "
+                "type of a schema with entity / extension types at every depth are written in the encoder's own spelling and in the "
+                "implicit one (bare {type, id} where an entity is declared, bare string where an extension type is declared); the "
+                "specification resolves the schema (SchemaModel), reads each document and coerces by the declared types; both readings "
+                "and both real decoders (Entity / EntityMap UnmarshalJSONWithSchema) must give the entity. distinct = distinct data.")
+    ctx.assumptions = ["schema-guided decoding is checked against one schema (entity / extension types at every depth of sets and "
+                       "records, in attributes and tags, tags-only and attribute-only entity types)",
                        "Decision / Diagnostic round trips are not modelled (fixed-shape structs without value dispatch)",
                        "names are related to their characters by spelling tables computed by harness and checker"]
     q = ctx.quick
     add_m3(ctx, "vjson", "roundtrips", "vjson", 6000 if q else 200000)
+    add_m3(ctx, "vjsonschema", "schema-guided", "vjsonschema", 1200 if q else 40000)
     return vlib.finish(ctx, confirm_all)
 
 
